@@ -12,7 +12,8 @@ import (
 // runs; only the choice is taken over.
 type SimPool struct {
 	T        *Tape
-	free     []*ugo.VM
+	free     [256]*ugo.VM // fixed array: manipulated without runtime slice helpers (those are race-instrumented)
+	nfree    int
 	Fresh    int
 	Recycled int
 	// Always, when non-zero, fixes the policy: 1 = always fresh, 2 = always recycle LIFO when possible.
@@ -30,7 +31,7 @@ func (p *SimPool) Install() (restore func()) {
 //go:norace
 func (p *SimPool) get() *ugo.VM {
 	choice := 0
-	if len(p.free) > 0 {
+	if p.nfree > 0 {
 		switch p.Always {
 		case 1:
 			choice = 0
@@ -41,16 +42,17 @@ func (p *SimPool) get() *ugo.VM {
 		}
 	}
 	switch choice {
-	case 1:
-		vm := p.free[len(p.free)-1]
-		p.free = p.free[:len(p.free)-1]
-		p.Recycled++
-		raceAcquire(unsafe.Pointer(vm))
-		return vm
-	case 2:
-		i := p.T.Draw(len(p.free))
+	case 1, 2:
+		i := p.nfree - 1
+		if choice == 2 {
+			i = p.T.Draw(p.nfree)
+		}
 		vm := p.free[i]
-		p.free = append(p.free[:i], p.free[i+1:]...)
+		for j := i; j < p.nfree-1; j++ {
+			p.free[j] = p.free[j+1]
+		}
+		p.nfree--
+		p.free[p.nfree] = nil
 		p.Recycled++
 		raceAcquire(unsafe.Pointer(vm))
 		return vm
@@ -62,5 +64,8 @@ func (p *SimPool) get() *ugo.VM {
 //go:norace
 func (p *SimPool) put(vm *ugo.VM) {
 	raceReleaseMerge(unsafe.Pointer(vm))
-	p.free = append(p.free, vm)
+	if p.nfree < len(p.free) {
+		p.free[p.nfree] = vm
+		p.nfree++
+	}
 }
